@@ -89,6 +89,13 @@ func (self ValueString) Fields() (map[string]*Value, *Interrupt) {
 			distance := levenshtein.ComputeDistance(self.Inner, args[0].(ValueString).Inner)
 			return NewValueInt(int64(distance)), nil
 		}),
+		"substring": NewValueBuiltinFunction(func(executor Executor, cancelCtx *context.Context, span errors.Span, args ...Value) (*Value, *Interrupt) {
+			upper := args[0].(ValueInt).Inner
+			if upper < 0 || upper >= int64(len(self.Inner)) {
+				return nil, NewThrowInterrupt(span, "index out of range")
+			}
+			return NewValueString(self.Inner[0:upper]), nil
+		}),
 		"parse_json": NewValueBuiltinFunction(func(executor Executor, cancelCtx *context.Context, span errors.Span, args ...Value) (*Value, *Interrupt) {
 			var raw interface{}
 			if err := json.Unmarshal([]byte(self.Inner), &raw); err != nil {
